@@ -51,6 +51,23 @@ fn check_string(ctx: &mut Ctx, w: &World, s: &str, origin: &str) -> String {
     let strict = catch_unwind(AssertUnwindSafe(|| parse_query(s)));
     let lenient = catch_unwind(AssertUnwindSafe(|| parse_query_lenient(s)));
     let mut strict_ast: Option<UserInputAst> = None;
+    // character layer: the Lean strict parser predicts the outcome (tree / error / panic) on any text
+    if s.len() <= 1200 {
+        let real = match &strict {
+            Err(_) => "panic".to_string(),
+            Ok(Err(_)) => "error".to_string(),
+            Ok(Ok(ast)) => {
+                let mut out = vec![];
+                canon_chars(&serde_json::to_value(ast).unwrap_or(Value::Null), &mut out);
+                format!("tree {}", out.join(","))
+            }
+        };
+        let model = normalise_model_tree(&ctx.model.ask(&format!("C16 parse {}", crate::model::hex(s.as_bytes()))));
+        ctx.report.count(&format!("char-layer:{}", real.split(' ').next().unwrap_or("")));
+        if model != real {
+            ctx.report.violation("model", "C16:char-layer-mismatch", format!("{}: real strict parser {} ≠ Lean character-layer parser {}", short(s), short(&real), short(&model)), case.clone());
+        }
+    }
     match strict {
         Err(e) => {
             let msg = panic_text(e);
